@@ -11,7 +11,7 @@ def scenarios(quick):
     D = 2
     durs = [0, 1, 2, 3, 5] if not quick else [0, 2, 3, 5]
     outs = [("R1", None), ("R0", None), ("R0", "E2")]
-    cfgs = [hg(1, D), hg(2, D), hg(2, D, c=[cR("R1")]), hg(1, D, c=[cE("E2")]), hg(2, D, c=[cR("R1")], delays=[1, 3])]
+    cfgs = [hg(1, D), hg(2, D), hg(2, D, c=[cR("R1")]), hg(1, D, c=[cE("E2")]), hg(2, D, c=[cR("R1")], delays=[1, 3]), hg(0, D), hg(0, D, delays=[1])]
     for h in cfgs:
         n = h["maxh"] + 1
         for ds in itertools.product(durs, repeat=n):
